@@ -6,7 +6,7 @@ Require Import Stab Act Spec SpecProofs Gen_GateTable Gen_RevTrack GenProofs_Rev
 Require GenProofs_TabMeas.
 Require Gen_AddError GenProofs_AddError.
 Require Mpp MppRev.
-Require Pauli Sem Refine Run FrameRun RevTrack.
+Require Pauli Sem Refine Run FrameRun RevTrack FrameProg RevProg.
 
 (* (1) Tie G: every unitary undo_* routine of the reverse tracker (translated from sparse_rev_frame_tracker.cc), applied per
        detector to (d in xs[q], d in zs[q]), is the unsigned action of the table's INVERSE gate; nothing refused, nothing
@@ -137,3 +137,26 @@ Theorem C03_checked_detectors_are_deterministic :
 Proof. exact RevTrack.detector_deterministic. Qed.
 Print Assumptions C03_error_flips_detector_iff_it_anticommutes_with_the_sensitivity.
 Print Assumptions C03_checked_detectors_are_deterministic.
+
+(* Adaptive programs (feedback, resets, sweep bits, Pauli noise as externally controlled Paulis): in EVERY run the semantics allows
+   under the shot's external bits exta, a checked detector whose sensitivity at the start commutes with the initial group takes
+   the reference run's value xor the parity of the externally controlled Paulis whose bit differs from the reference and whose
+   Pauli anticommutes with the detector's back-propagated sensitivity at their position (bt: multiplied by M at flagged
+   measurements, flags toggled by later feedback that anticommutes, pulled back through Cliffords).  A fault flips exactly the
+   detectors it anticommutes with, and faults combine by XOR - the content of a detector error model, to all orders. *)
+Theorem C03_detector_value_in_every_shot :
+  forall (n : nat) (extr exta : nat -> bool) (prog : list FrameProg.pop) (l la : list (Run.op * option bool))
+         (s s' : (Pauli.pauli -> Pauli.pauli) * (Pauli.pauli -> Pauli.pauli)) (Sg S' : Sem.state) (d : list bool),
+  Forall (FrameProg.okp n) prog -> Run.good n (fst s) (snd s) -> Run.Inv n (fst s) Sg ->
+  FrameProg.realize extr [] prog l -> Run.sim_run n s l s' -> FrameProg.realize exta [] prog la -> Run.sem_run Sg la S' ->
+  RevProg.gauge_okp n prog d -> (forall g, Refine.wf n g -> Sg g -> Sem.acom g (fst (RevProg.bt n prog d)) = false) ->
+  RevTrack.par_rec la d = xorb (RevTrack.par_rec l d) (RevProg.ext_par n extr exta prog d).
+Proof. exact RevProg.detector_in_every_shot. Qed.
+(* the flip parity in the frame sampler, in closed form, for every frame, earlier flips and randomisation *)
+Theorem C03_flip_parity_closed_form :
+  forall (n : nat) (extr exta : nat -> bool) (prog : list FrameProg.pop) (F : Pauli.pauli) (fl zs d : list bool),
+  Forall (FrameProg.okp n) prog -> Refine.wf n F -> RevProg.gauge_okp n prog d ->
+  RevProg.fparp extr exta F fl zs prog d =
+  xorb (xorb (Sem.acom F (fst (RevProg.bt n prog d))) (RevProg.dotp (snd (RevProg.bt n prog d)) fl)) (RevProg.ext_par n extr exta prog d).
+Proof. exact RevProg.fparp_closed_form. Qed.
+Print Assumptions C03_detector_value_in_every_shot. Print Assumptions C03_flip_parity_closed_form.
